@@ -63,7 +63,7 @@ def plan(tier):
 
 def required_regimes(tier):
     return {'layout:negative_alias', 'layout:o_after_ri', 'layout:ri_before_spatial', 'skip:some', 'skip:all', 'include:some',
-            'include:all', 'prefix', 'inverse_layout', 'odd_size', 'skip+include'}
+            'include:all', 'prefix', 'inverse_layout', 'odd_size', 'skip+include', 'masks:list', 'masks:tuple', 'masks:ndarray'}
 
 
 def expected_layout(D, o, r):
@@ -142,8 +142,18 @@ def run(item):
             res.state(b, q, H, W, J, o, r, skip, inc)
             res['impl_calls'] += 1
             res['evals'] += P
+            # the masks are given in rotating container types (list, tuple, ndarray of bools), single bools when uniform
+            ci = (len(res['states']) + J) % 3
+            cont = [list, tuple, lambda v: np.array(v, dtype=bool)][ci]
+            cfg['mask_container'] = ['list', 'tuple', 'ndarray'][ci]
+            tags.append('masks:' + cfg['mask_container'])
+            skip_arg, inc_arg = cont(skip), cont(inc)
+            if ci == 1 and len(set(skip)) == 1:
+                skip_arg = bool(skip[0])
+            if ci == 1 and len(set(inc)) == 1:
+                inc_arg = bool(inc[0])
             try:
-                yl, yh = DTCWTForward(biort=b, qshift=q, J=J, o_dim=o, ri_dim=r, skip_hps=list(skip), include_scale=list(inc))(X)
+                yl, yh = DTCWTForward(biort=b, qshift=q, J=J, o_dim=o, ri_dim=r, skip_hps=skip_arg, include_scale=inc_arg)(X)
             except Exception as e:
                 res.violation('forward_options', cfg, {'kind': 'raise', 'exc': repr(e)[:200]}, tags)
                 continue
